@@ -22,6 +22,7 @@ RULE = ("success/failure schedules injected into RandomWalk.update_positions. En
 ASSUMPTIONS = ["a successful placement is the repository's own update_positions in a 30 nm empty box "
                "(never fails there; if it does the case is inconclusive)",
                "schedules are exhaustive only up to the stated length and for the listed shapes"]
+RULE += (' A quarter of the system cases run a second _compose_system pass over the finished system: no step is walked, no row changes, no residue gets a second entry.')
 BUDGET = {"quick": (16, 60), "thorough": (16, 1500)}
 
 SHAPES = {
